@@ -318,6 +318,27 @@ theorem copy_reports_read_error (pre : List Bytes) (last : Bytes) (rest : List (
   | nil => rfl
   | cons d t ih => simp [copyBuffer, ih, List.append_assoc]
 
+/-! ### a failed destination write leaves nothing behind in a pooled stackless writer -/
+
+/-- regenerated facts: `(*writer).do` reaches `w.xw.Reset()` after the destination write on every path (no return in
+    between), and `(*writer).Reset` empties the staging buffer too -/
+theorem staging_buffer_is_always_cleared :
+    Gen.stacklessDoAlwaysClearsStaging = true ∧ Gen.stacklessResetClearsStaging = true := by decide
+
+theorem swFold_staging (ops : List SWOp) : ∀ s : SWSt, s.staging = [] → (ops.foldl swStep s).staging = [] := by
+  induction ops with
+  | nil => intro s h; exact h
+  | cons o t ih => intro s _; exact ih _ (by cases o <;> rfl)
+
+/-- after ANY history of operations — destination writes that succeeded or failed, re-acquisitions — the staging buffer
+    is empty, so the next operation hands the destination exactly what the compressor produced for THAT operation:
+    nothing of an earlier (failed) response can precede the next body -/
+theorem failed_write_leaves_nothing_behind (history : List SWOp) (produced : Bytes) :
+    (swRun history).staging = [] ∧
+    (swStep (swStep (swRun history) .reset) (.run produced true)).dst = produced := by
+  have h := swFold_staging history {} rfl
+  exact ⟨h, by simp [swStep]⟩
+
 /-! ### Append*/Write* under any load -/
 
 /-- the general form: whatever the call sites do with a full queue, as long as either they run the job inline or no
@@ -378,6 +399,7 @@ def big : Bytes := List.replicate 200 97
 def htmlResp (b : Body) : Resp := ⟨[], ofString "text/html", [], 0, b⟩
 
 example : (compressHandlerLevel toyCodecs 6 (ofString "gzip") (htmlResp (.raw big))).body = .buf (1 :: big) := by decide +kernel
+example : (swRun [.run [1, 2] false, .reset, .run [3] true]).dst = [3] := by decide
 example : copyBuffer [([1], .none), ([], .none), ([2, 3], .eof)] = ([1, 2, 3], false) := by decide
 example : hasAcceptEncoding (ofString "deflate, gzip") Gen.strGzip = true := by decide +kernel
 example : hasAcceptEncoding (ofString "gzip;q=0") Gen.strGzip = false := by decide +kernel
